@@ -118,6 +118,8 @@ func c09Run(c *fw.Ctx) {
 	defer envs.close()
 	const L = 2 * time.Hour
 	e := envs.get("c09", harness.AuthOpts{EmailDomains: []string{"corp.test"}, RootDomains: []string{"sso.test"}, Lifetime: L})
+	// the same authenticator configured with the (rarely used) address list instead of a domain list
+	ea := envs.get("c09-address-rule", harness.AuthOpts{EmailAddresses: []string{"bob@corp.test"}, RootDomains: []string{"sso.test"}, Lifetime: L})
 	other, _ := aead.NewMiscreantCipher(harness.OtherSecret)
 	now := harness.T0
 	future, past := harness.At(time.Hour), harness.At(-time.Minute)
@@ -129,6 +131,10 @@ func c09Run(c *fw.Ctx) {
 	// ---- 1. sign_in with every cookie ---------------------------------------------------------
 	drive(c, "sign_in", -1, func(x *explore.Exec, owned bool) {
 		setNow(0)
+		e, rule := e, policy{Doms: []string{"corp.test"}}
+		if x.Choose("email-rule", 2) == 1 {
+			e, rule = ea, policy{Addrs: []string{"bob@corp.test"}}
+		}
 		kind := x.Choose("cookie", 4) // 0 genuine, 1 absent, 2 garbage, 3 other key
 		var sess *sessions.SessionState
 		hdr := http.Header{}
@@ -137,7 +143,7 @@ func c09Run(c *fw.Ctx) {
 		case 0:
 			l, r := x.Choose("lifetime", 2), x.Choose("token-deadline", 2)
 			rt := []string{"idp-refresh-token", ""}[x.Choose("refresh-token", 2)]
-			em := []string{"bob@corp.test", "mallory@other.test", "bob@evilcorp.test"}[x.Choose("email", 3)]
+			em := []string{"bob@corp.test", "mallory@other.test", "bob@evilcorp.test", "notbob@corp.test"}[x.Choose("email", 4)]
 			pick := func(b int) time.Time {
 				if b == 0 {
 					return future
@@ -195,8 +201,8 @@ func c09Run(c *fw.Ctx) {
 			viol("code-without-provider-confirmation", fmt.Sprintf("a code was issued although the identity provider did not accept the token in this step (calls %v)", calls))
 		case !now.Before(sess.RefreshDeadline) && sess.RefreshToken == "":
 			viol("code-for-expired-token-without-refresh", "a code was issued for an expired token that cannot be refreshed")
-		case !ruleAdmits(policy{Doms: []string{"corp.test"}}, sess.Email, nil):
-			viol("code-for-email-outside-rule/"+sess.Email, "a code was issued for "+sess.Email)
+		case !ruleAdmits(rule, sess.Email, nil):
+			viol("code-for-email-outside-rule/"+sess.Email, fmt.Sprintf("a code was issued for %s under the rule %+v", sess.Email, rule))
 		}
 		for _, cs := range codes {
 			if sess != nil && cs.Email != sess.Email {
